@@ -80,7 +80,7 @@ def run_case(case, worker_dir, tier, run_tests):
             res["reports"] = [l[:300] for l in (hit or lines)][:4]
         else:
             res["status"] = "SILENT" if not lines and all(c == 0 for c in codes) else "FALSE-ALARM"
-            res["reports"] = [l[:300] for l in lines][:6]
+            res["reports"] = [l[:300] for l in lines][:60]
         if run_tests:
             r = subprocess.run(["cargo", "test", "--workspace", "--offline", "--no-fail-fast"], cwd=scratch,
                                env=dict(os.environ, CARGO_TARGET_DIR=os.path.join(worker_dir, "test-target")),
@@ -144,7 +144,7 @@ def main():
         with ThreadPoolExecutor(jobs) as ex:
             for r in ex.map(job, sel):
                 results.append(r)
-                print("%-11s %-5s %-44s %-22s %5.1fs %s" % (r["kind"], r["prop"] if isinstance(r["prop"], str) else ",".join(r["prop"]),
+                print("%-11s %-5s %-44s %-22s %5.1fs %s" % (r["kind"], r["prop"] if isinstance(r["prop"], str) else (",".join(r["prop"]) if len(r["prop"]) < 6 else "ALL"),
                                                         r["name"], r["status"], r["wall_s"],
                                                         "" if not a.tests else ("tests:" + str(r.get("tests_pass")))), flush=True)
                 if r["status"] in ("MISSED", "FALSE-ALARM", "ERROR", "INVALID (does not compile)", "DETECTED-OTHER-RULE"):
